@@ -101,7 +101,7 @@ func selectedIDs(ids []keystore.ExportID) string {
 
 // Run is the C18 monitor.
 func Run(r *ev.Run) {
-	r.Rule = "cases = keystore format {v1 one directory, v1 separate public directory, v2} × source history {4 fixed: single keys, with poison symmetric key, rotated, rotated+destroyed; + seeded ones: 1–3 clients, 1–3 generations per key kind, destroyed current/rotated keys, poison/log keys} × export selection {--all, --all --private_keys, explicit private ids, explicit public ids} (through KeyBackuper.Export like acra-keys export) × target {empty, holding another client}; plus v2 ExportKeyRings/ImportKeyRings with abort/skip/overwrite delegates on a target holding the same ring; plus per bundle: bit flips of Data (quick: head, tail and a seeded sample; thorough: every bit of bundles ≤ 8 KiB), every bit of the access keys, truncations; plus secret scan of every bundle; plus v1→v2 migration (MigrateV1toV2) of every v1 history. A case is non-trivial when the export produced a bundle and the import (or its rejection) was compared; distinct = (format, history class, selection, target kind, oracle) tuples"
+	r.Rule = "cases = keystore format {v1 one directory, v1 separate public directory, v2} × source history {fixed: single keys, with poison symmetric key, rotated, rotated poison, rotated+destroyed, odd client ids (a key-kind suffix of the v1 file names inside the id: billing_storage_hmac_node, x_storage_sym_y, next to the plain client billing), odd id with rotated keys; + seeded ones: 1–3 clients (a third of them with one more client with an odd id), 1–3 generations per key kind, destroyed current/rotated keys, poison/log keys} × export selection {--all, --all --private_keys, explicit private ids, explicit public ids} (through KeyBackuper.Export like acra-keys export) × target {empty, holding another client}; plus v2 ExportKeyRings/ImportKeyRings with abort/skip/overwrite delegates on a target holding the same ring; plus per bundle: bit flips of Data (quick: head, tail and a seeded sample; thorough: every bit of bundles ≤ 8 KiB), every bit of the access keys, truncations; plus secret scan of every bundle; plus v1→v2 migration (MigrateV1toV2) of every v1 history. A case is non-trivial when the export produced a bundle and the import (or its rejection) was compared; distinct = (format, history class, selection, target kind, oracle) tuples"
 	r.Assumptions = []string{
 		"crypto library replaced by the pure-Go gothemis stand-in (Secure Cell Seal authenticates every bit of its output; HMAC-SHA256 signatures of v2 containers are Acra's own code)",
 		"filesystem / in-memory back ends only (no Redis); CLI file handling (key_bundle_file / key_bundle_secret) not driven, the Exporter/Importer objects the commands build are",
@@ -111,10 +111,10 @@ func Run(r *ev.Run) {
 	logrus.StandardLogger().ExitFunc = func(code int) { panic(fmt.Sprintf("logrus.Fatal -> os.Exit(%d)", code)) }
 	m := &monitor{r: r, rng: gen.New(r.Seed, "c18")}
 	m.scannerSelfTest()
-	hs := histories(m.rng, r.Pick(5, 24))
+	hs := histories(m.rng, gen.New(r.Seed, "c18-odd-ids"), r.Pick(5, 24))
 	for _, h := range hs {
 		m.v1Scenario(h, false)
-		if r.Thorough() || h.name == "rotated-clients" || h.name == "single-keys" {
+		if r.Thorough() || h.name == "rotated-clients" || h.name == "single-keys" || h.name == "odd-ids" {
 			m.v1Scenario(h, true)
 		}
 		m.v2Scenario(h)
@@ -133,6 +133,8 @@ func Run(r *ev.Run) {
 	r.RequireAtLeast("secret_windows_searched", 1000)
 	r.RequireAtLeast("migrations_run", 4)
 	r.RequireAtLeast("migrated_entries_compared", 20)
+	r.RequireAtLeast("migrated_entries_compared_of_odd_client_ids", 10)
+	r.RequireAtLeast("exported_entries_compared_of_odd_client_ids", 30)
 	r.RequireSetAtLeast("formats", 3)
 	r.RequireSetAtLeast("selections", 4)
 }
@@ -397,6 +399,9 @@ func (m *monitor) compare(format string, h historySpec, sel, target string, ex e
 			r.Count("v2_ring_views_compared", 1)
 		}
 		r.Count("exported_entries_compared", 1)
+		if oddTag(n) != "" {
+			r.Count("exported_entries_compared_of_odd_client_ids", 1)
+		}
 		if got.Equal(want) || (!want.OK() && !got.OK() && got.Panic == "") {
 			continue
 		}
@@ -413,9 +418,11 @@ func (m *monitor) compare(format string, h historySpec, sel, target string, ex e
 		case len(got.Vals) != len(want.Vals):
 			cls = "history-length-differs"
 		}
-		bad[cls] = append(bad[cls], entryKind(n))
+		// entries of a client whose id contains a key-kind suffix are reported apart (their own signature: "[client-id=...]")
+		bad[cls+oddTag(n)] = append(bad[cls+oddTag(n)], entryKind(n))
 	}
-	for cls, kinds := range bad {
+	for key, kinds := range bad {
+		cls, idc := splitOddTag(key)
 		what := joinKinds(kinds)
 		readable := 0
 		for _, e := range ex.present {
@@ -426,9 +433,9 @@ func (m *monitor) compare(format string, h historySpec, sel, target string, ex e
 		if len(kinds) == readable && len(kinds) > 3 {
 			what = "every-exported-key"
 		}
-		m.violate(format, h, sel, target, fmt.Sprintf("exported-key-not-identical(%s:%s)", cls, what), detail())
+		m.violate(format, h, sel, target, fmt.Sprintf("exported-key-not-identical(%s:%s)%s", cls, what, idc), detail())
 	}
-	var changed []string
+	changed := map[string][]string{}
 	for _, n := range after.Names() {
 		if _, exp := ex.present[n]; exp {
 			continue
@@ -451,12 +458,29 @@ func (m *monitor) compare(format string, h historySpec, sel, target string, ex e
 			continue
 		}
 		if !sameLoose(got, was) {
-			changed = append(changed, entryKind(n))
+			changed[oddTag(n)] = append(changed[oddTag(n)], entryKind(n))
 		}
 	}
-	if len(changed) > 0 {
-		m.violate(format, h, sel, target, fmt.Sprintf("unselected-key-appeared-or-changed(%s)", joinKinds(changed)), detail())
+	for key, kinds := range changed {
+		_, idc := splitOddTag(key)
+		m.violate(format, h, sel, target, fmt.Sprintf("unselected-key-appeared-or-changed(%s)%s", joinKinds(kinds), idc), detail())
 	}
+}
+
+// oddTag marks an entry of a client whose id contains a key-kind suffix ("" for every other entry); splitOddTag undoes it
+// and returns the signature fragment that names the id class.
+func oddTag(entryName string) string {
+	if idClass(entryClient(entryName)) != "plain" {
+		return "|odd-id"
+	}
+	return ""
+}
+
+func splitOddTag(key string) (rest, sigFragment string) {
+	if strings.HasSuffix(key, "|odd-id") {
+		return strings.TrimSuffix(key, "|odd-id"), "[client-id=contains-key-kind-suffix]"
+	}
+	return key, ""
 }
 
 func joinKinds(k []string) string {
@@ -885,7 +909,7 @@ func (m *monitor) v2Delegates(h historySpec, src *v2Store, srcDump *ksdump.Dump)
 				if b, ok := before.E[n]; ok && b.OK() {
 					continue
 				}
-				if strings.Contains(n, string(first)) {
+				if entryClient(n) == string(first) {
 					continue
 				}
 				ex2.present[n] = e
@@ -899,7 +923,7 @@ func (m *monitor) v2Delegates(h historySpec, src *v2Store, srcDump *ksdump.Dump)
 				m.violate(format, h, sel.name, dec.name, "abort-decision-ignored", nil)
 			}
 			for _, n := range after.Names() {
-				if strings.Contains(n, string(first)) && !sameLoose(after.E[n], before.E[n]) {
+				if entryClient(n) == string(first) && !sameLoose(after.E[n], before.E[n]) {
 					m.violate(format, h, sel.name, dec.name, fmt.Sprintf("refused-import-changed-existing-ring(%s)", entryKind(n)), map[string]interface{}{"before": before.Render(), "after": after.Render()})
 				}
 			}
@@ -938,6 +962,9 @@ func (m *monitor) migration(h historySpec) {
 			continue
 		}
 		r.Count("migrated_entries_compared", 1)
+		if oddTag(n) != "" {
+			r.Count("migrated_entries_compared_of_odd_client_ids", 1)
+		}
 		got := after.E[n]
 		if got.Equal(e) {
 			continue
@@ -958,11 +985,18 @@ func (m *monitor) migration(h historySpec) {
 		if n == ksdump.PoisonSym || n == ksdump.PoisonSyms {
 			group = "|poison-sym"
 		}
+		// so have the keys of a client whose id contains a key-kind suffix (the migration derives the owner from the file name)
+		// - except when only OLDER keys are missing: then the current key of that client did arrive under the right owner,
+		// and what is missing is what is missing for every client (rotated keys are not migrated, whatever the id)
+		if cls != "older-keys-missing" {
+			group += oddTag(n)
+		}
 		bad[cls+group] = append(bad[cls+group], entryKind(n))
 	}
 	for key, kinds := range bad {
+		key, idc := splitOddTag(key)
 		cls := strings.TrimSuffix(key, "|poison-sym")
-		m.violate(format, h, "all", "empty", fmt.Sprintf("migrated-key-not-identical(%s:%s)", cls, joinKinds(kinds)), detail)
+		m.violate(format, h, "all", "empty", fmt.Sprintf("migrated-key-not-identical(%s:%s)%s", cls, joinKinds(kinds), idc), detail)
 	}
 	r.SampleN("migration", 2, map[string]interface{}{"what": "migration compared", "history": h.String(), "error": fmt.Sprint(err)})
 }
